@@ -1046,6 +1046,14 @@ void Handler::readArgumentFile( const string& pathFilename, bool reportMissing)
    string  line;
    while (!std::getline( progArgs, line).eof())
    {
+      // a read error (e.g. the path is a directory) never sets eof
+      if (progArgs.fail())
+      {
+         if (reportMissing)
+            throw runtime_error( "could not read file '" + pathFilename + "'");
+         break;   // while
+      } // end if
+
       if (line.empty() || (line[ 0] == '#'))
          continue;   // while
 
